@@ -16,9 +16,9 @@ func init() {
 	register(&Prop{
 		ID:       "C12",
 		Category: "model_checking",
-		Rule: "first life h1 = every sequence of length <=d1 over {Write(piece) for pieces leaving every kind of residue, Flush, Close, destination-fails-from-now-on}; then Reset(new sink); " +
+		Rule: "first life h1 = every sequence of length <=d1 over {Write(piece) for pieces leaving every kind of residue, Flush, Close, destination-fails-from-now-on, Reset(another sink)}; then Reset(new sink); " +
 			"second life h2 from a fixed menu {Close; Flush Close; W(small) Close; W(same data as h1) Close; W(small) Flush W(small) Close; W(3*fill) Close}; " +
-			"oracle: bytes sent to the new sink and every returned error identical to a fresh Writer of the same setting running h2, nothing written to the old sink after Reset, output decodes; non-trivial = h1 wrote at least one byte",
+			"oracle: bytes sent to the new sink and every returned error identical to a fresh Writer of the same setting running h2, nothing written after the last Reset to the old sink or to any sink given up earlier, output decodes; non-trivial = h1 wrote at least one byte",
 		Assumptions: []string{"the fresh Writer is the reference model"},
 		Quick:       TierSpec{MaxDev: -1, Shards: 4, ShardDepth: 3, BudgetS: 150},
 		Thorough:    TierSpec{MaxDev: -1, Shards: 8, ShardDepth: 3, BudgetS: 1700},
@@ -68,6 +68,7 @@ func c12Harness(cfg *Cfg) func(x *mc.Exec) {
 		k := kinds[ki]
 		ps := getPieces(k)
 		old := &env.Sink{}
+		past := []*env.Sink{} // destinations given up by a Reset inside the first life
 		r, err := newRun(k, old)
 		if err != nil {
 			x.Fail("C12 ctor "+k.Kind, "%s: %v", k, err)
@@ -76,7 +77,7 @@ func c12Harness(cfg *Cfg) func(x *mc.Exec) {
 		var h1data []byte
 		residue := ""
 		for step := 0; step < d1; step++ {
-			c := x.Choose(len(ps)+4, "h1")
+			c := x.Choose(len(ps)+5, "h1")
 			if c == 0 {
 				break
 			}
@@ -97,8 +98,17 @@ func c12Harness(cfg *Cfg) func(x *mc.Exec) {
 				old.FailErr = env.NewErr("h1")
 				r.hist += "dest-fails-now "
 				residue += "X"
+			case 4:
+				// a Reset inside the first life (pool Put followed by pool Get): the destination changes once more
+				past = append(past, old)
+				old = &env.Sink{}
+				if pi := r.reset(old); pi != nil {
+					x.Fail("C12 reset-panic "+k.Kind+accTag(k), "%s [%s]: Reset panics: %s", k, r.hist, pi)
+					return
+				}
+				residue += "R"
 			default:
-				p := ps[c-4]
+				p := ps[c-5]
 				if _, _, ok := r.do(x, "C12", opWrite, p.Data, "W("+p.Name+")"); !ok {
 					return
 				}
@@ -110,6 +120,10 @@ func c12Harness(cfg *Cfg) func(x *mc.Exec) {
 			x.NonTrivial()
 		}
 		oldLen, oldCalls := len(old.Buf), old.Calls
+		pastLen, pastCalls := make([]int, len(past)), make([]int, len(past))
+		for i, s := range past {
+			pastLen[i], pastCalls[i] = len(s.Buf), s.Calls
+		}
 		h2 := x.Choose(len(h2names), "h2")
 		// second life on the used writer and on a fresh one
 		life := func(rr *wrun, tag string) (errs string, ok bool) {
@@ -180,6 +194,12 @@ func c12Harness(cfg *Cfg) func(x *mc.Exec) {
 			refCache[rk] = ref
 		}
 		hcls := fmt.Sprintf("%s h1-residue=%s", k.Kind+accTag(k), residueClass(residue))
+		for i, s := range past {
+			if len(s.Buf) != pastLen[i] || s.Calls != pastCalls[i] {
+				x.Fail("C12 earlier-sink-touched "+hcls, "%s [%s]: %d bytes / %d calls reached a destination given up %d Resets earlier", k, r.hist, len(s.Buf)-pastLen[i], s.Calls-pastCalls[i], len(past)-i+1)
+				return
+			}
+		}
 		if len(old.Buf) != oldLen || old.Calls != oldCalls {
 			x.Fail("C12 old-sink-touched "+hcls, "%s [%s]: %d bytes / %d calls reached the old destination after Reset", k, r.hist, len(old.Buf)-oldLen, old.Calls-oldCalls)
 			return
@@ -209,7 +229,7 @@ func residueClass(s string) string {
 		return "none"
 	}
 	out := ""
-	for _, c := range []byte("WFCX") {
+	for _, c := range []byte("WFCXR") {
 		if bytes.IndexByte([]byte(s), c) >= 0 {
 			out += string(c)
 		}
